@@ -16,7 +16,7 @@ RULE = ('case = (mode, setting, S): mode "include" writes `#include S<ext>` (ext
         '~/.lexaloffle/pico-8/carts/game, homex: cart in the prefix-sharing ~/.lexaloffle/pico-8/cartsX}; mode '
         '"require" writes require("S") into main.lua (or, nested, into a package that main.lua requires) and runs '
         'tool.main([build, OUT.p8, --lua, main.lua]) under load-path settings {default, lib/?.lua;? , ?.lua;?/init.lua, '
-        '<abs>/libs/?.lua;<abs>/libs/?/init.lua} given by --lua-path or PICO8_LUA_PATH. S ranges over ALL sequences of '
+        '<abs>/libs/?.lua;<abs>/libs/?/init.lua} given by --lua-path or PICO8_LUA_PATH (and --lua-path with PICO8_LUA_PATH naming another, all-canary directory: the option wins). S ranges over ALL sequences of '
         '<= 3 (thorough: <= 4) segments from {lib, sub, ., .., empty, sibling name, ok, canary, ?, ;} joined by / with '
         'optional leading/trailing /, plus absolute and relative paths (with/without extension, and with a ../ run '
         'to the filesystem root) of every file of the layout, plus Hypothesis-drawn strings of 4-8 segments from a '
@@ -102,9 +102,13 @@ REQ_SETTINGS = {
     # the project directory itself has a `?` in its name (legal on this file system)
     'qdir': (None, None, 'lib/ok', 'work/qu?ry/lib/ok.lua'),
     'qdir_rel': ('lib/?.lua;?', 'cli', 'ok', 'work/qu?ry/lib/ok.lua'),
+    # --lua-path given AND PICO8_LUA_PATH set to another directory: the option wins (README), for nested requires
+    # too; the environment variable's directory (abs/libsx, all canaries) is not a root of this build
+    'abs_cli_env_other': (ABS_LP, 'cli', 'mod', 'abs/libs/mod.lua'),
 }
+ENV_ALSO = {'abs_cli_env_other': '{TMP}/abs/libsx/?.lua;{TMP}/abs/libsx/?/init.lua;{TMP}/abs/libsx/?'}
 MAIN_LUA = {'qdir': 'work/qu?ry/main.lua', 'qdir_rel': 'work/qu?ry/main.lua'}
-REQ_ORDER = ('default', 'rel_cli', 'relpkg_cli', 'abs_cli', 'rel_env', 'abs_env', 'qdir', 'qdir_rel')
+REQ_ORDER = ('default', 'rel_cli', 'relpkg_cli', 'abs_cli', 'rel_env', 'abs_env', 'qdir', 'qdir_rel', 'abs_cli_env_other')
 MUTABLE = ['work/proj/main.p8', HP + '/carts/game/main.p8', HP + '/cartsX/main.p8', 'work/proj/main.lua', 'work/qu?ry/main.lua',
            'build/out.p8']
 P8_HEAD = b'pico-8 cartridge // http://www.pico-8.com\nversion 8\n__lua__\n'
@@ -410,6 +414,8 @@ def _run_require(lay, case, S):
         args += ['--lua-path', lay.sub(lp)]
     elif via == 'env':
         lay.setenv('PICO8_LUA_PATH', lay.sub(lp))
+    if case['setting'] in ENV_ALSO:
+        lay.setenv('PICO8_LUA_PATH', lay.sub(ENV_ALSO[case['setting']]))
     err, rc = None, None
     with FsGuard() as guard:
         try:
@@ -597,10 +603,14 @@ def require_cases(lay, maxseg):
         for nested in (False, True):
             probe = {'mode': 'require', 'setting': setting, 'nested': nested, 'S': ''}
             _f, reqdir, roots = req_geometry(lay, probe)
-            if setting.startswith('qdir'):
-                # (a reduced string space: this setting is about the directory's name, not about the strings)
+            if setting.startswith('qdir') or setting in ENV_ALSO:
+                # (a reduced string space: these settings are about the directory's name / about which of two
+                # configured load paths applies, not about the strings)
                 for S in enum_strings(2):
                     yield dict(probe, S=S)
+                if setting in ENV_ALSO:
+                    for S in ('mod', 'pkg', 'init', 'canary', 'ok/init', 'lib/ok'):
+                        yield dict(probe, S=S)
                 continue
             for S in enum_strings(maxseg):
                 yield dict(probe, S=S)
